@@ -25,6 +25,9 @@ Assumed contracts (trusted base; `dep:` names in the evidence)
     `a`, the sorted distinct values UF[0] < … < UF[D-1] with their multiplicities; without `size` both results have
     length D; with `size=s` both have length s: entry j is (UF[j], Mult(UF[j])) for j < D and (f, 0) beyond —
     i.e. TRUNCATED to the s smallest distinct values when D > s, padded when D < s.
+  * `index % n` (integer array, positive int): entries normalised into [0, n); multiset: Mult(index % n, w) =
+    Mult(index, w) + Mult(index, w - n) for 0 <= w < n when the entries of `index` lie in [-n, n), 0 outside [0, n).
+    (Not used by the unchanged tree; present so that a repair of the negative-alias defect stays decidable.)
   * `jnp.zeros(n, dtype)`: n zeros.  `x.at[U].add(C)` (hints `indices_are_sorted`, `unique_indices` ignored on CPU —
     checked natively): out[v] = x[v] + Σ_{j : nrm(U[j]) = v} C[j], where nrm(i) = i for 0 <= i < n, i + n for
     -n <= i < 0, and the entry is dropped otherwise.  The finite sum is the ghost `SSum(U, C, L, n, v)`.
@@ -156,6 +159,28 @@ class IdxV(Value):
             raise Unsupported('ite of index item and something else')
         a, b = (self, other) if self_is_then else (other, self)
         return IdxV(z3.If(c, a.term, b.term))
+
+    def py_binop(self, interp, op, other, refl):
+        """`index % n` for an integer array and a positive int n: every entry is normalised into [0, n).  In the
+        multiset view: Mult(index % n, w) = Σ_j Mult(index, w + j n) for 0 <= w < n, else 0; the terms with j other
+        than 0 and -1 vanish for an in-bounds index array (entries in [-n, n))."""
+        if op != 'Mod' or refl or not is_intlike(other):
+            from pyvc.values import NOT_IMPLEMENTED
+            return NOT_IMPLEMENTED
+        run = interp.run
+        interp.used_externals.add('jax.Array.__mod__')
+        t, n = self.term, to_z3(other)
+        run.oblige(f'{interp.cur_name()}/pre:modulo-of-an-integer-array-by-a-positive-int', z3.And(is_iarr(t), n >= 1), kind='pre')
+        r = fresh_const('normalised', Idx)
+        w, u = fresh_int('w'), fresh_int('u')
+        inb = z3.ForAll([u], z3.Implies(Mult(t, u) > 0, z3.And(-n <= u, u < n)))
+        run.assume(is_iarr(r))
+        run.assume(z3.ForAll([w], z3.Implies(z3.Or(w < 0, w >= n), Mult(r, w) == 0), patterns=[Mult(r, w)]))
+        run.assume(z3.Implies(inb, z3.ForAll([w], z3.Implies(z3.And(0 <= w, w < n), Mult(r, w) == Mult(t, w) + Mult(t, w - n)),
+                                             patterns=[Mult(r, w)])))
+        out = IdxV(r)
+        out.normalised_from = (self, other)
+        return out
 
     def py_getattr(self, interp, name):
         if name == 'dtype':
